@@ -101,4 +101,4 @@ if __name__ == "__main__":
     for line in sys.stdin:
         line = line.strip()
         if line:
-            print(evaluate(json.loads(line), reg), flush=True)
+            print(json.dumps(evaluate(json.loads(line), reg)), flush=True)   # JSON: an outcome may end in a space or contain a newline
